@@ -112,6 +112,16 @@ def mem_input(I, name):
     m.quantile_scores = None
     m._other = {n: np.array(a, float) for n, a in f.items() if n not in ("obs", "fcst", "pit")}
     m.other_fields = sorted(m._other)
+    # optional probabilistic content (stream metric.multi): stored CDF / quantile columns [(level, 3-D array)] and
+    # ensemble members (4-D array, members last); absent keys leave the input as it always was
+    if I.get("thr"):
+        m.thresholds = np.array([t for t, _ in I["thr"]], float)
+        m.threshold_scores = np.stack([np.array(a, float) for _, a in I["thr"]], -1)
+    if I.get("qnt"):
+        m.quantiles = np.array([q for q, _ in I["qnt"]], float)
+        m.quantile_scores = np.stack([np.array(a, float) for _, a in I["qnt"]], -1)
+    if I.get("ens") is not None:
+        m.ensemble = np.array(I["ens"], float)
     return m
 
 
@@ -275,6 +285,22 @@ def oracle_dims(ds):
     return times, leads, locs
 
 
+def _utc(t):
+    import datetime
+    return datetime.datetime(1970, 1, 1) + datetime.timedelta(seconds=int(t))
+
+
+# calendar buckets of an initialisation time (UTC), as the -x help text names them (stream metric.multi; the bucket
+# functions themselves are C11's subject)
+CALENDAR_BUCKETS = {
+    "month": lambda v: (_utc(v).year, _utc(v).month),
+    "year": lambda v: _utc(v).year,
+    "week": lambda v: (_utc(v).date() - __import__("datetime").timedelta(days=_utc(v).weekday())).toordinal(),
+    "monthofyear": lambda v: _utc(v).month,
+    "dayofmonth": lambda v: _utc(v).day,
+}
+
+
 def slice_cases(dims, ax, k):
     """documented slice: the (t, l, x) cases of slice k of axis ax, in row-major order (None = invalid index)"""
     times, leads, locs = dims
@@ -304,6 +330,8 @@ def slice_cases(dims, ax, k):
         T = bucket_groups(times, lambda v: (int(v) // 86400) * 86400)
     elif ax == "timeofday":
         T = bucket_groups(times, lambda v: (int(v) % 86400) / 3600.0)
+    elif ax in CALENDAR_BUCKETS:
+        T = bucket_groups(times, CALENDAR_BUCKETS[ax])
     else:
         return None
     if T is None or L is None or X is None:
